@@ -242,6 +242,12 @@ impl WalRecovery {
         Ok(files)
     }
 
+    /// Verification builds only (`cargo kani`): entry point to the private frame reader.
+    #[cfg(kani)]
+    pub fn verif_read_record(&self, reader: &mut BufReader<File>) -> Result<Option<WalRecord>> {
+        self.read_record(reader)
+    }
+
     fn read_record(&self, reader: &mut BufReader<File>) -> Result<Option<WalRecord>> {
         // Read length prefix
         let mut len_buf = [0u8; 4];
